@@ -194,6 +194,34 @@ Definition init_push (te : tyenv) (funcs : list prov) (downTypes : list (nat * n
   | None => x0
   end.
 
+(* ---------- the fuel of the topological sort (proofs/TopoFuel.v) ----------
+   reorder.go loops until its queues are empty; the model's sort runs on fuel.  Every node is processed
+   at most once, processing node i queues at most one node per entry of its before-list and one per
+   produced / received type, and every step takes one entry off a queue: with
+      phi x = queued entries + sum over the nodes not yet done of (1 + what processing may queue)
+   steps of fuel the run ends with all queues empty and more fuel changes nothing. *)
+Definition befs (ns : list rnode) : list (list nat) := map n_before ns.
+Definition qlen (x : topo) : nat := length (t_unblocked x) + length (t_weak x) + length (t_cannot x).
+
+Section Potential.
+  Variable te : tyenv.
+  Variable funcs : list prov.
+  (* what processing node i may add to the queues, plus one *)
+  Definition cost (bs : list (list nat)) (i : nat) : nat :=
+    1 + length (nth i bs []) +
+    match getp funcs i with
+    | Some p => length (no_no te (pflow p FOut)) + length (no_no te (pflow p FRecv))
+    | None => 0
+    end.
+  Fixpoint pend_from (bs : list (list nat)) (done : list nat) (l : list nat) : nat :=
+    match l with
+    | [] => 0
+    | i :: r => (if memb i done then 0 else cost bs i) + pend_from bs done r
+    end.
+  Definition pend (bs : list (list nat)) (done : list nat) : nat := pend_from bs done (seq 0 (length bs)).
+  Definition phi (x : topo) : nat := qlen x + pend (befs (t_nodes x)) (t_done x).
+End Potential.
+
 Definition reorder_funcs (te : tyenv) (funcs : list prov) : res (list prov) :=
   if negb (existsb is_reorder funcs) then Ok funcs else
   let n := length funcs in
@@ -245,7 +273,7 @@ Definition reorder_funcs (te : tyenv) (funcs : list prov) : res (list prov) :=
                  (rs_weak st) nodes2 in
   let x0 := mkTopo nodes3 (rs_cannot st) [] [] [] [] in
   let x1 := init_push te funcs (rs_down st) x0 in
-  let xf := topo_run te funcs (rs_down st) (rs_up st) (4 * (counter + 2) * (counter + 2)) x1 in
+  let xf := topo_run te funcs (rs_down st) (rs_up st) (phi te funcs x1) x1 in
   let out := t_out xf in
   let missing := filter (fun i => negb (memb i (t_done xf))) idx in
   let pick i := match getp funcs i with Some p => [p] | None => [] end in
@@ -306,32 +334,4 @@ Definition reorder_prepare (te : tyenv) (funcs : list prov) : rstate * topo :=
   let x1 := init_push te funcs (rs_down st) x0 in
   (st, x1).
 
-Definition reorder_fuel (st : rstate) : nat := 4 * (rs_counter st + 2) * (rs_counter st + 2).
-
-Definition befs (ns : list rnode) : list (list nat) := map n_before ns.
-Definition qlen (x : topo) : nat := length (t_unblocked x) + length (t_weak x) + length (t_cannot x).
-
-Section Potential.
-  Variable te : tyenv.
-  Variable funcs : list prov.
-  (* what processing node i may add to the queues, plus one *)
-  Definition cost (bs : list (list nat)) (i : nat) : nat :=
-    1 + length (nth i bs []) +
-    match getp funcs i with
-    | Some p => length (no_no te (pflow p FOut)) + length (no_no te (pflow p FRecv))
-    | None => 0
-    end.
-  Fixpoint pend_from (bs : list (list nat)) (done : list nat) (l : list nat) : nat :=
-    match l with
-    | [] => 0
-    | i :: r => (if memb i done then 0 else cost bs i) + pend_from bs done r
-    end.
-  Definition pend (bs : list (list nat)) (done : list nat) : nat := pend_from bs done (seq 0 (length bs)).
-  Definition phi (x : topo) : nat := qlen x + pend (befs (t_nodes x)) (t_done x).
-End Potential.
-
-(* the fuel reorder_funcs gives its topological sort is at least the potential of the start state *)
-Definition reorder_fuel_ok (te : tyenv) (funcs : list prov) : bool :=
-  negb (existsb is_reorder funcs) ||
-  (let '(st, x1) := reorder_prepare te funcs in phi te funcs x1 <=? reorder_fuel st).
 
